@@ -441,6 +441,17 @@ theorem set_members_atomic (m : MemberSetter) (ci : ClassInfo) (w : World) (k : 
     (us.all (typeOk w.heap ci.accepted) = false → m.run ci w k us = (w, some m.elemErr)) := by
   constructor <;> intro h <;> simp [MemberSetter.run, hk, ha, h]
 
+/-- what a setter that checks inside the loop does instead (BolometerCamera.foil_detectors as it is): the elements in
+front of the first wrong-typed one are re-parented to the refusing group although the assignment raises -/
+theorem set_members_loop_partial (m : MemberSetter) (ci : ClassInfo) (w : World) (k : Option SeqKind) (u x : Nat)
+    (rest : List Nat) (hk : kindIn k m.kinds = true) (ha : m.atomic = false) (hu : typeOk w.heap ci.accepted u = true)
+    (hx : typeOk w.heap ci.accepted x = false) :
+    (m.run ci w k (u :: x :: rest)).2 = some m.elemErr ∧ (m.run ci w k (u :: x :: rest)).1.members = w.members ∧
+    ((m.run ci w k (u :: x :: rest)).1.heap u).parent = some w.gid := by
+  have hx' : typeOk (w.heap.setParent u (some w.gid)) ci.accepted x = false := by
+    rw [typeOk_congr (h := w.heap) ci.accepted x (by simp)]; exact hx
+  simp [MemberSetter.run, hk, ha, reparentChecked, hu, hx']
+
 theorem set_members_wrong_container (m : MemberSetter) (ci : ClassInfo) (w : World) (k : Option SeqKind) (us : List Nat)
     (hk : kindIn k m.kinds = false) : m.run ci w k us = (w, some m.kindErr) := by
   simp [MemberSetter.run, hk]
